@@ -416,21 +416,7 @@ static aligned_t controller(void *unused)
         }
         if (line[0] == 'E') {
             nblk = 0;
-            /* qthread_feb_callback dereferences waiter->rdata, which is NULL for a task that never ran: it crashes on a
-             * parked precondition task (noted as a side finding).  With such a task anywhere in the tables the enumeration
-             * is taken from the audit instead. */
-            int unsafe = 0;
-            for (script_t *x = S; x; x = x->prev)
-                for (int k = 0; k < x->npre; k++) if (x->P[k].spawned && !x->P[k].started) unsafe = 1;
-            if (!unsafe) {
-                qthread_feb_callback(feb_cb, NULL);
-            } else {
-                audit_t A;
-                for (int w = 0; w < S->nwords; w++) {
-                    audit(&S->W[w], &A);
-                    for (int i = 0; i < 4; i++) for (int j = 0; j < A.n[i] && nblk < 256; j++) { blk[nblk].w = w; blk[nblk].id = A.ids[i][j]; nblk++; }
-                }
-            }
+            qthread_feb_callback(feb_cb, NULL);
             qsort(blk, nblk, sizeof(blk_t), blk_cmp);
             printf("e");
             for (int i = 0; i < nblk; i++) printf(" %d:%d", blk[i].w, blk[i].id);
